@@ -11,6 +11,7 @@ THEOREMS = [
     'Sbepp.Properties.C05.data_size',
     'Sbepp.Properties.C05.cursor_size_after_encode',
     'Sbepp.Properties.C05.flat_level_size',
+    'Sbepp.Properties.C05.trait_size_eq',
 ]
 
 
@@ -84,8 +85,8 @@ def run(chk):
                  'header-value boundary grid for flat_group_base::size_bytes over all 16 dimension type pairs')
     if chk.failed_obligations and not chk.violations:
         chk.report_unproved('theorem', chk.failed_obligations)
-    chk.assumptions += ['the equality of the trait-level formula (Gen.SizeFormula) with the image length is checked '
-                        'differentially on every generated image, not yet proved for all trees']
+    chk.assumptions += ['Gen.SizeFormula (model of the generated trait-level formula) is tied to the real generated '
+                        'message_traits<>::size_bytes by the differential check']
 
 
 replay = c02.replay
